@@ -4,8 +4,8 @@
 # usage: tools/seedall.sh [seed ...]
 set -u
 export GOFLAGS=-mod=mod GOPROXY=off GOSUMDB=off GOTOOLCHAIN=local CGO_ENABLED=0
-WT=/root/wt/seedrun
-SR=/tmp/seedrepo
+WT=${SEEDRUN_WT:-/root/wt/seedrun}
+SR=${SEEDRUN_SR:-/tmp/seedrepo}
 git -C /verif worktree remove --force $WT 2>/dev/null
 git -C /verif worktree add -q --detach $WT HEAD || exit 2
 git -C /repo worktree remove --force $SR 2>/dev/null
@@ -28,6 +28,10 @@ for S in $seeds; do
   [ "$S" = "C07-4" ] && props="C07 C16"
   [ "$S" = "C19-4" ] && props="C19 C02"
   [ "$S" = "C07-3" ] && props="C07 C02"
+  [ "$S" = "C17-6" ] && props="C17 C18"
+  [ "$S" = "C15-5" ] && props="C15 C14"
+  [ "$S" = "C12-5" ] && props="C12 C16"
+  [ "$S" = "C12-6" ] && props="C12 C16"
   [ "$S" = "C12-4" ] && props="C12 C02"
   [ "$S" = "C01-4" ] && props="C01 C17"
   [ "$S" = "C05-4" ] && props="C05 C17"
